@@ -5,8 +5,13 @@ structural summary of `load_octree_for_query` (stack discipline, the merge rule 
 when the loaded page does not describe the node), of the integer box filter of `CopcReader.query`, of the order in which
 the fetch strategies put the fetched ranges into the buffer, and of `Bounds.ensure_3d` (a new object, the caller's is not
 written to).
+load_octree_for_query, CopcReader.query, http_queue_strategy and HttpFetcherThread.run are read in a normal form (`canon`
+below) and their fragments are compared with the reference ones up to one injective renaming of the locals.
 Fail closed: a shape that is not recognised omits the definition, so Model/Copc.v stops compiling."""
 import ast
+import copy
+import keyword as _kw
+import re
 
 import py2v
 from py2v import Fn, Out, Untranslatable, find_class, find_func, parse
@@ -34,6 +39,511 @@ class _Subst(ast.NodeTransformer):
         if isinstance(node.op, ast.BitAnd) and isinstance(node.left, ast.Compare) and isinstance(node.right, ast.Compare):
             return ast.BoolOp(op=ast.And(), values=[node.left, node.right])
         return node
+
+
+# ======================================================================================================================
+# Behaviour-preserving normal form of a function + matching of source fragments up to a consistent renaming of locals.
+#   canon(f):  docstrings, annotations and logging calls dropped; a local helper whose body is one `return <expr>` inlined at
+#              its call sites; `not` pushed inwards (De Morgan, `not (a is b)` -> `a is not b`, `not (a in r)` -> `a not in r`);
+#              the `else`/`elif` part of an `if` whose body always leaves (continue/break/return/raise) lifted behind the `if`;
+#              `if not c: A else: B` -> `if c: B else: A`; a local bound once and read once, by the next statement and before
+#              anything with an effect is evaluated there, replaced by its defining expression.
+#              `try: t = E / except Empty|KeyError|..: <leaves>` followed by `a, b = t` (only read of t) -> the unpacking
+#              done in the try; a local that is never read is named `_`.
+#   Alpha:     token-wise comparison of unparsed source with reference fragments in which the reference's local names are
+#              variables: one injective renaming of the function's locals has to make ALL fragments fit (parameters, attributes,
+#              keyword names, globals are never renamed).
+# Everything not understood is left as it is (so the fragments of the reference do not fit and the definition is MISSING).
+# ======================================================================================================================
+
+_LEAVE = (ast.Return, ast.Raise, ast.Continue, ast.Break)
+_OPAQUE = (ast.Lambda, ast.ListComp, ast.SetComp, ast.DictComp, ast.GeneratorExp, ast.Dict)
+_EFFECT = (ast.Call, ast.Await, ast.Yield, ast.YieldFrom, ast.NamedExpr)
+_FLIP = {ast.Is: ast.IsNot, ast.IsNot: ast.Is, ast.In: ast.NotIn, ast.NotIn: ast.In}
+
+
+def _blocks(node):
+    """every statement list below node (node's own included)"""
+    for n in ast.walk(node):
+        for field in ("body", "orelse", "finalbody"):
+            b = getattr(n, field, None)
+            if isinstance(b, list) and b and isinstance(b[0], ast.stmt):
+                yield b
+
+
+def _leaves(block):
+    if not block:
+        return False
+    last = block[-1]
+    if isinstance(last, _LEAVE):
+        return True
+    return isinstance(last, ast.If) and _leaves(last.body) and _leaves(last.orelse)
+
+
+def _is_log_call(s):
+    if not (isinstance(s, ast.Expr) and isinstance(s.value, ast.Call) and isinstance(s.value.func, ast.Attribute)):
+        return False
+    base = s.value.func.value
+    return isinstance(base, ast.Name) and base.id in ("logger", "logging", "log", "_logger", "LOGGER") and \
+        s.value.func.attr in ("debug", "info", "warning", "error", "exception", "critical", "log")
+
+
+def _strip(f):
+    for n in ast.walk(f):
+        if isinstance(n, (ast.FunctionDef, ast.AsyncFunctionDef)):
+            n.returns = None
+            a = n.args
+            for arg in a.posonlyargs + a.args + a.kwonlyargs + [x for x in (a.vararg, a.kwarg) if x is not None]:
+                arg.annotation = None
+    for b in _blocks(f):
+        new = []
+        for s in b:
+            if isinstance(s, ast.Expr) and isinstance(s.value, ast.Constant):
+                continue                                             # docstring / bare literal: no effect
+            if _is_log_call(s):
+                continue
+            if isinstance(s, ast.AnnAssign):
+                if s.value is None:
+                    continue
+                if isinstance(s.target, ast.Name):
+                    s = ast.copy_location(ast.Assign(targets=[s.target], value=s.value), s)
+            new.append(s)
+        b[:] = new or [ast.Pass()]
+
+
+def _nnf(e, truth=False):
+    """`not` pushed inwards; truth: only the truth value of e is used"""
+    if isinstance(e, ast.UnaryOp) and isinstance(e.op, ast.Not):
+        x = _nnf(e.operand, True)
+        if isinstance(x, ast.BoolOp):
+            dual = ast.Or() if isinstance(x.op, ast.And) else ast.And()
+            return ast.BoolOp(op=dual, values=[_nnf(ast.UnaryOp(op=ast.Not(), operand=v), True) for v in x.values])
+        if isinstance(x, ast.Compare) and len(x.ops) == 1 and type(x.ops[0]) in _FLIP:
+            return ast.Compare(left=x.left, ops=[_FLIP[type(x.ops[0])]()], comparators=x.comparators)
+        if isinstance(x, ast.UnaryOp) and isinstance(x.op, ast.Not) and truth:
+            return x.operand
+        return ast.UnaryOp(op=ast.Not(), operand=x)
+    if isinstance(e, ast.BoolOp):
+        return ast.BoolOp(op=e.op, values=[_nnf(v, truth) for v in e.values])
+    if isinstance(e, ast.IfExp):
+        return ast.IfExp(test=_nnf(e.test, True), body=_nnf(e.body, truth), orelse=_nnf(e.orelse, truth))
+    for field, v in ast.iter_fields(e):
+        if isinstance(v, ast.expr):
+            setattr(e, field, _nnf(v))
+        elif isinstance(v, list):
+            setattr(e, field, [_nnf(x) if isinstance(x, ast.expr) else _nnf_other(x) for x in v])
+        elif isinstance(v, ast.AST):
+            _nnf_other(v)
+    return e
+
+
+def _nnf_other(n):
+    """keyword / comprehension / slice-like helpers: normalise the expressions inside"""
+    if isinstance(n, ast.AST):
+        for field, v in ast.iter_fields(n):
+            if isinstance(v, ast.expr):
+                setattr(n, field, _nnf(v))
+            elif isinstance(v, list):
+                setattr(n, field, [_nnf(x) if isinstance(x, ast.expr) else _nnf_other(x) for x in v])
+    return n
+
+
+def _nnf_stmts(f):
+    for n in ast.walk(f):
+        if not isinstance(n, ast.stmt):
+            continue
+        for field, v in ast.iter_fields(n):
+            if isinstance(v, ast.expr):
+                setattr(n, field, _nnf(v, truth=field == "test"))
+            elif isinstance(v, list) and v and isinstance(v[0], ast.expr):
+                setattr(n, field, [_nnf(x) for x in v])
+            elif isinstance(v, list) and v and isinstance(v[0], ast.withitem):
+                for w in v:
+                    w.context_expr = _nnf(w.context_expr)
+
+
+def _negate(e):
+    return _nnf(ast.UnaryOp(op=ast.Not(), operand=e), True)
+
+
+def _is_not(e):
+    return isinstance(e, ast.UnaryOp) and isinstance(e.op, ast.Not)
+
+
+def _branches(f):
+    changed = False
+    for b in list(_blocks(f)):
+        i = 0
+        while i < len(b):
+            s = b[i]
+            if isinstance(s, ast.If) and s.orelse:
+                if _leaves(s.orelse) and not _leaves(s.body):
+                    s.test, s.body, s.orelse = _negate(s.test), s.orelse, s.body
+                    changed = True
+                if _leaves(s.body):
+                    b[i + 1:i + 1] = s.orelse
+                    s.orelse = []
+                    changed = True
+                elif _is_not(s.test):
+                    s.test, s.body, s.orelse = s.test.operand, s.orelse, s.body
+                    changed = True
+            i += 1
+    return changed
+
+
+def _name_counts(f):
+    loads, stores = {}, {}
+
+    def bump(d, k, n=1):
+        d[k] = d.get(k, 0) + n
+    for n in ast.walk(f):
+        if isinstance(n, ast.Name):
+            bump(loads if isinstance(n.ctx, ast.Load) else stores, n.id)
+        elif isinstance(n, ast.arg):
+            bump(stores, n.arg)
+        elif isinstance(n, ast.ExceptHandler) and n.name:
+            bump(stores, n.name)
+        elif isinstance(n, (ast.Global, ast.Nonlocal)):
+            for k in n.names:
+                bump(stores, k, 2)
+        elif isinstance(n, (ast.FunctionDef, ast.AsyncFunctionDef, ast.ClassDef)) and n is not f:
+            bump(stores, n.name)
+        elif isinstance(n, ast.alias):
+            bump(stores, (n.asname or n.name).split(".")[0])
+        if isinstance(n, ast.AugAssign) and isinstance(n.target, ast.Name):
+            bump(loads, n.target.id)
+    return loads, stores
+
+
+def _mentions(node, name):
+    return any(isinstance(m, ast.Name) and m.id == name for m in ast.walk(node))
+
+
+class _Use:
+    """is the single read of `name` in the expressions a statement evaluates first reached unconditionally and before any effect?"""
+
+    def __init__(self, name):
+        self.name, self.effect, self.verdict = name, False, None
+
+    def scan(self, e, cond=False):
+        if self.verdict is not None or e is None:
+            return
+        if isinstance(e, ast.Name):
+            if e.id == self.name and isinstance(e.ctx, ast.Load):
+                self.verdict = not (cond or self.effect)
+            return
+        if isinstance(e, _OPAQUE):
+            if _mentions(e, self.name):
+                self.verdict = False
+            elif any(isinstance(m, _EFFECT) for m in ast.walk(e)):
+                self.effect = True
+            return
+        if isinstance(e, ast.BoolOp):
+            self.scan(e.values[0], cond)
+            for v in e.values[1:]:
+                self.scan(v, True)
+            return
+        if isinstance(e, ast.IfExp):
+            self.scan(e.test, cond)
+            self.scan(e.body, True)
+            self.scan(e.orelse, True)
+            return
+        if isinstance(e, ast.Compare):
+            self.scan(e.left, cond)
+            self.scan(e.comparators[0], cond)
+            for v in e.comparators[1:]:
+                self.scan(v, True)
+            return
+        for child in ast.iter_child_nodes(e):
+            if isinstance(child, (ast.expr, ast.keyword, ast.Slice)):
+                self.scan(child, cond)
+        if isinstance(e, _EFFECT):
+            self.effect = True
+
+
+def _heads(s):
+    """the expressions statement s evaluates exactly once, first, in this order (None: unknown statement)"""
+    if isinstance(s, ast.Assign):
+        return [s.value] + s.targets
+    if isinstance(s, (ast.Expr, ast.Return)):
+        return [s.value]
+    if isinstance(s, ast.Raise):
+        return [s.exc, s.cause]
+    if isinstance(s, ast.If):
+        return [s.test]
+    if isinstance(s, ast.For):
+        return [s.iter]
+    if isinstance(s, ast.With):
+        return [s.items[0].context_expr]
+    return None
+
+
+class _Put(ast.NodeTransformer):
+    def __init__(self, table):
+        self.table = table
+
+    def visit_Name(self, node):
+        if isinstance(node.ctx, ast.Load) and node.id in self.table:
+            return copy.deepcopy(self.table[node.id])
+        return node
+
+
+def _inline_temps(f):
+    changed = False
+    loads, stores = _name_counts(f)
+    for b in list(_blocks(f)):
+        i = 0
+        while i + 1 < len(b):
+            s, nxt = b[i], b[i + 1]
+            if isinstance(s, ast.Assign) and len(s.targets) == 1 and isinstance(s.targets[0], ast.Name):
+                t = s.targets[0].id
+                heads = _heads(nxt)
+                if stores.get(t) == 1 and loads.get(t) == 1 and heads is not None and not _mentions(s.value, t):
+                    use = _Use(t)
+                    for h in heads:
+                        use.scan(h)
+                    if use.verdict:
+                        put = _Put({t: s.value})
+                        for field, v in list(ast.iter_fields(nxt)):
+                            if isinstance(v, ast.expr) and any(v is h for h in heads):
+                                setattr(nxt, field, put.visit(v))
+                            elif isinstance(v, list) and v and all(isinstance(x, ast.expr) for x in v):
+                                setattr(nxt, field, [put.visit(x) if any(x is h for h in heads) else x for x in v])
+                        if isinstance(nxt, ast.With):
+                            nxt.items[0].context_expr = put.visit(nxt.items[0].context_expr)
+                        del b[i]
+                        loads[t] = 0
+                        changed = True
+                        i = max(i - 1, 0)
+                        continue
+            i += 1
+    return changed
+
+
+def _simple_arg(e):
+    while isinstance(e, ast.Attribute):
+        e = e.value
+    return isinstance(e, (ast.Name, ast.Constant))
+
+
+def _inline_helpers(f):
+    changed = False
+    for b in list(_blocks(f)):
+        for s in list(b):
+            if not (isinstance(s, ast.FunctionDef) and s is not f and not s.decorator_list):
+                continue
+            a = s.args
+            if a.vararg or a.kwarg or a.kwonlyargs or a.defaults or a.kw_defaults:
+                continue
+            body = [x for x in s.body if not (isinstance(x, ast.Expr) and isinstance(x.value, ast.Constant))]
+            if len(body) != 1 or not isinstance(body[0], ast.Return) or body[0].value is None:
+                continue
+            expr = body[0].value
+            if any(isinstance(m, _OPAQUE[:-1] + (ast.NamedExpr, ast.Await, ast.Yield, ast.YieldFrom)) for m in ast.walk(expr)):
+                continue
+            params = [x.arg for x in a.posonlyargs + a.args]
+            loads, stores = _name_counts(f)
+            if stores.get(s.name) != 1:
+                continue
+            free = {m.id for m in ast.walk(expr) if isinstance(m, ast.Name)} - set(params)
+            late = [m for m in ast.walk(f) if isinstance(m, ast.Name) and not isinstance(m.ctx, ast.Load) and m.id in free
+                    and m.lineno >= s.lineno]
+            if late or any(stores.get(k, 0) > 1 for k in free):
+                continue                                             # what the helper reads may change between definition and call
+            calls = [m for m in ast.walk(f) if isinstance(m, ast.Call) and isinstance(m.func, ast.Name) and m.func.id == s.name]
+            if len(calls) != loads.get(s.name, 0) or not calls:
+                continue                                             # the helper is also passed around
+            if any(c.keywords or len(c.args) != len(params) or not all(_simple_arg(x) for x in c.args)
+                   or c.lineno <= s.end_lineno for c in calls):
+                continue
+            ids = {id(c): c for c in calls}
+
+            class _Calls(ast.NodeTransformer):
+                def visit_Call(self, node):
+                    node = self.generic_visit(node)
+                    if id(node) in ids:
+                        return _Put(dict(zip(params, node.args))).visit(copy.deepcopy(expr))
+                    return node
+            b.remove(s)
+            _Calls().visit(f)
+            changed = True
+    return changed
+
+
+_NOT_UNPACK_ERRORS = ("Empty", "KeyError", "IndexError", "StopIteration")
+
+
+def _try_tails(f):
+    """try: t = E / except <lookup error>: <leaves>   followed by   a, b = t   (the only read of t)
+       ->  try: a, b = E / except ...   — unpacking a name raises TypeError/ValueError only, which such a handler does not catch"""
+    changed = False
+    loads, stores = _name_counts(f)
+    for b in list(_blocks(f)):
+        for i in range(len(b) - 1):
+            s, nxt = b[i], b[i + 1]
+            if not (isinstance(s, ast.Try) and s.handlers and not s.orelse and not s.finalbody
+                    and all(isinstance(h.type, ast.Name) and h.type.id in _NOT_UNPACK_ERRORS and _leaves(h.body) for h in s.handlers)):
+                continue
+            last = s.body[-1]
+            if not (isinstance(last, ast.Assign) and len(last.targets) == 1 and isinstance(last.targets[0], ast.Name)):
+                continue
+            t = last.targets[0].id
+            if not (isinstance(nxt, ast.Assign) and isinstance(nxt.value, ast.Name) and nxt.value.id == t and len(nxt.targets) == 1
+                    and isinstance(nxt.targets[0], (ast.Tuple, ast.List)) and all(isinstance(x, ast.Name) for x in nxt.targets[0].elts)
+                    and loads.get(t) == 1 and stores.get(t) == 1):
+                continue
+            last.targets = nxt.targets
+            del b[i + 1]
+            return True
+    return changed
+
+
+def _dead_stores(f):
+    """a local that is never read is named `_`"""
+    loads, stores = _name_counts(f)
+    if loads.get("_"):
+        return
+    params = {n.arg for n in ast.walk(f) if isinstance(n, ast.arg)}
+    fixed = {k for n in ast.walk(f) if isinstance(n, (ast.Global, ast.Nonlocal)) for k in n.names}
+    for n in ast.walk(f):
+        if isinstance(n, ast.Name) and isinstance(n.ctx, ast.Store) and not loads.get(n.id) and n.id not in params | fixed:
+            n.id = "_"
+
+
+def canon(f):
+    f = copy.deepcopy(f)
+    _strip(f)
+    for _ in range(50):
+        _nnf_stmts(f)
+        if not (_inline_helpers(f) | _branches(f) | _try_tails(f) | _inline_temps(f)):
+            break
+    _dead_stores(f)
+    return ast.fix_missing_locations(f)
+
+
+_TOKEN = re.compile(r"""\s*(?:(?P<lit>[rbfuRBFU]{0,2}(?:'(?:[^'\\]|\\.)*'|"(?:[^"\\]|\\.)*")|\d[\w.]*)|(?P<id>[A-Za-z_]\w*)"""
+                    r"""|(?P<op>\*\*=?|//=?|<<=?|>>=?|[-+*/%&|^@<>=!:]=|->|\.\.\.|\S))""")
+
+
+def _tokens(text):
+    raw = [(m.lastgroup, m.group(m.lastgroup)) for m in _TOKEN.finditer(text) if m.lastgroup]
+    out, stack = [], []
+    for i, (k, t) in enumerate(raw):
+        if k == "op" and t in "([{":
+            stack.append(t)
+        elif k == "op" and t in ")]}" and stack:
+            stack.pop()
+        if k == "id":
+            prev = raw[i - 1][1] if i else ""
+            nxt = raw[i + 1][1] if i + 1 < len(raw) else ""
+            if prev == ".":
+                k = "attr"
+            elif nxt == "=" and stack and stack[-1] == "(" and prev in ("(", ","):
+                k = "kw"
+            elif _kw.iskeyword(t):
+                k = "key"
+        out.append((k, t))
+    return out
+
+
+def _bound_names(f):
+    top = f.args
+    params = {a.arg for a in top.posonlyargs + top.args + top.kwonlyargs + [x for x in (top.vararg, top.kwarg) if x]}
+    bound, fixed = set(), set(params)
+    for n in ast.walk(f):
+        if isinstance(n, ast.Name) and not isinstance(n.ctx, ast.Load):
+            bound.add(n.id)
+        elif isinstance(n, ast.arg):
+            bound.add(n.arg)
+        elif isinstance(n, ast.ExceptHandler) and n.name:
+            bound.add(n.name)
+        elif isinstance(n, (ast.FunctionDef, ast.AsyncFunctionDef)) and n is not f:
+            bound.add(n.name)
+        elif isinstance(n, (ast.Global, ast.Nonlocal)):
+            fixed.update(n.names)
+        elif isinstance(n, (ast.ClassDef, ast.alias)):
+            fixed.add(getattr(n, "asname", None) or n.name)
+    return bound - fixed - {"_"}
+
+
+class Alpha:
+    """f: a function in normal form; ref_locals: the local names of the reference that occur in the fragments"""
+
+    def __init__(self, f, ref_locals):
+        self.f = f
+        self.src = _tokens(ast.unparse(f))
+        self.renamable = _bound_names(f)
+        self.ref = set(ref_locals.split())
+
+    def _fit(self, needle, pos, bind, inv):
+        if pos + len(needle) > len(self.src):
+            return None
+        bind, inv = dict(bind), dict(inv)
+        for (nk, nt), (sk, st) in zip(needle, self.src[pos:pos + len(needle)]):
+            if nk == "id" and nt in self.ref:
+                if sk != "id" or st not in self.renamable:
+                    return None
+                if bind.setdefault(nt, st) != st or inv.setdefault(st, nt) != nt:
+                    return None
+            elif nk != sk or nt != st or (sk == "id" and st in self.renamable):
+                return None
+        return bind, inv
+
+    def solve(self, fragments):
+        """fragments: {what: text}. Returns None, or raises Untranslatable naming the first fragment that fits nowhere under
+        any renaming that fits the fragments before it."""
+        items = [(what, _tokens(_fragment(text))) for what, text in fragments.items()]
+        deepest = [0]
+
+        def go(i, bind, inv):
+            if i == len(items):
+                return bind
+            deepest[0] = max(deepest[0], i)
+            for pos in range(len(self.src) - len(items[i][1]) + 1):
+                r = self._fit(items[i][1], pos, bind, inv)
+                if r is not None:
+                    done = go(i + 1, *r)
+                    if done is not None:
+                        return done
+            return None
+        bind = go(0, {}, {})
+        if bind is None:
+            what = items[deepest[0]][0]
+            raise Untranslatable(f"{self.f.name}: {what}: `{' '.join(fragments[what].split())}` not found (up to renaming of locals)")
+        self.bind = bind
+        return bind
+
+    def renamed(self):
+        """the function with its locals named as in the reference"""
+        to_ref = {v: k for k, v in self.bind.items()}
+        g = copy.deepcopy(self.f)
+        others = set()
+        for n in ast.walk(g):
+            if isinstance(n, ast.Name) and n.id not in to_ref:
+                others.add(n.id)
+            elif isinstance(n, ast.arg) and n.arg not in to_ref:
+                others.add(n.arg)
+        clash = others & set(to_ref.values())
+        if clash:
+            raise Untranslatable(f"{g.name}: renaming of locals clashes on {sorted(clash)}")
+        for n in ast.walk(g):
+            if isinstance(n, ast.Name) and n.id in to_ref:
+                n.id = to_ref[n.id]
+            elif isinstance(n, ast.arg) and n.arg in to_ref:
+                n.arg = to_ref[n.arg]
+            elif isinstance(n, ast.ExceptHandler) and n.name in to_ref:
+                n.name = to_ref[n.name]
+            elif isinstance(n, (ast.FunctionDef, ast.AsyncFunctionDef)) and n is not g and n.name in to_ref:
+                n.name = to_ref[n.name]
+        return g
+
+
+def _fragment(text):
+    """a reference fragment printed the way ast.unparse prints the source (when it is a complete statement list)"""
+    try:
+        return ast.unparse(ast.parse(text))
+    except SyntaxError:
+        return text
 
 
 def gen_copc(repo):
@@ -118,29 +628,33 @@ def gen_copc(repo):
 
     # ---- load_octree_for_query: structural summary ----------------------------------------------------------
     def traversal():
-        f = find_func(mod, "load_octree_for_query")
-        src = _norm(f)
+        # the fragments are those of the normal form (canon) of the reference source; locals are matched up to renaming
+        al = Alpha(canon(find_func(mod, "load_octree_for_query")),
+                   "root_bounds root_node satisfying_nodes nodes_to_load current_node entry key loaded_entry known_entry "
+                   "child_key child_node")
         need = {
-            "pop from the end": "current_node=nodes_to_load.pop()",
-            "re-queue at the front": "nodes_to_load.insert(0,current_node)",
-            "children appended": "forchild_keyincurrent_node.key.childs():",
+            "root bounds": "root_bounds = Bounds(mins=info.center - info.halfsize, maxs=info.center + info.halfsize)",
+            "root": "root_node.key.level = 0",
+            "pop from the end": "current_node = nodes_to_load.pop()",
+            "bounds pruning": "current_node.bounds = current_node.key.bounds(root_bounds)\n"
+                              "if query_bounds is not None and not current_node.bounds.overlaps(query_bounds):\n    continue",
+            "level pruning": "if level_range is not None and current_node.key.level >= level_range.stop:\n    continue",
+            "missing key skipped": "entry = hierarchy_page.entries[current_node.key] except KeyError: continue",
+            "page reference": "if entry.point_count == -1:",
+            "merge rule": "for key, loaded_entry in HierarchyPage.from_bytes(source.read(entry.byte_size)).entries.items():\n"
+                          "    known_entry = hierarchy_page.entries.get(key)\n"
+                          "    if known_entry is None or known_entry.point_count == -1:\n"
+                          "        hierarchy_page.entries[key] = loaded_entry",
+            "page rule check": "if hierarchy_page.entries[current_node.key].point_count == -1: raise LaspyException(",
+            # the page branch always leaves the iteration, so `elif` and a following `if` are the same thing
+            "re-queue at the front, else the node branch": "nodes_to_load.insert(0, current_node) continue if entry.point_count >= 0:",
+            "children appended": "for child_key in current_node.key.childs():",
             "child appended to work list": "nodes_to_load.append(child_node)",
-            "level pruning": "iflevel_rangeisnotNoneandcurrent_node.key.level>=level_range.stop:continue",
-            "bounds pruning": "is_in_bounds=query_boundsisNoneorcurrent_node.bounds.overlaps(query_bounds)",
-            "missing key skipped": "exceptKeyError:continue",
-            "page reference": "ifentry.point_count==-1:",
-            "merge rule": "forkey,loaded_entryinpage.entries.items():known_entry=hierarchy_page.entries.get(key)"
-                          "ifknown_entryisNoneorknown_entry.point_count==-1:hierarchy_page.entries[key]=loaded_entry",
-            "page rule check": "ifhierarchy_page.entries[current_node.key].point_count==-1:raiseLaspyException(",
-            "node branch": "elifentry.point_count>=0:",
-            "level membership": "is_in_level=level_rangeisNoneorcurrent_node.key.levelinlevel_range",
-            "result": "ifis_in_level:satisfying_nodes.append(current_node)returnsatisfying_nodes",
-            "root": "root_node.key.level=0",
-            "root bounds": "root_bounds=Bounds(mins=info.center-info.halfsize,maxs=info.center+info.halfsize)",
+            "level membership, result": "if level_range is None or current_node.key.level in level_range:\n"
+                                        "    satisfying_nodes.append(current_node)\nreturn satisfying_nodes",
         }
-        for what, frag in need.items():
-            if frag not in src:
-                raise Untranslatable(f"load_octree_for_query: {what}: `{frag}` not found")
+        al.solve(need)
+        src = _norm(al.renamed())
         if src.count("nodes_to_load.") != 3 or src.count("hierarchy_page.entries[") != 3:
             raise Untranslatable("load_octree_for_query: unexpected work-list / hierarchy accesses")
         if src.count("raise") != 1 or src.count("continue") != 4:
@@ -155,26 +669,23 @@ def gen_copc(repo):
     # ---- CopcReader.query: level arguments, integer box filter ------------------------------------------------
     def query():
         cls = find_class(mod, "CopcReader")
-        f = find_func(cls, "query")
-        src = _norm(f)
+        al = Alpha(canon(find_func(cls, "query")), "points i32 MINS MAXS")
+        box = "(MINS[{k}] <= points.{c}) & (points.{c} <= MAXS[{k}])"
         need = {
-            "resolution to levels": "level_max=max(1,ceil(log2(self.copc_info.spacing/resolution))+1)level=range(0,level_max)",
-            "int level": "ifisinstance(level,int):level=range(level,level+1)",
-            "2-D boxes": "bounds=bounds.ensure_3d(self.header.mins,self.header.maxs)",
-            "x": "x_keep=(MINS[0]<=points.X)&(points.X<=MAXS[0])",
-            "y": "y_keep=(MINS[1]<=points.Y)&(points.Y<=MAXS[1])",
-            "z": "z_keep=(MINS[2]<=points.Z)&(points.Z<=MAXS[2])",
-            "mask": "keep_mask=x_keep&y_keep&z_keep",
-            "i32": "i32=np.iinfo(np.int32)",
+            "resolution to levels": "level = range(0, max(1, ceil(log2(self.copc_info.spacing / resolution)) + 1))",
+            "int level": "if isinstance(level, int):\n    level = range(level, level + 1)",
+            "2-D boxes": "bounds = bounds.ensure_3d(self.header.mins, self.header.maxs)",
+            "i32": "i32 = np.iinfo(np.int32)",
+            "x, y, z, mask": "points.array = points.array[" + box.format(k=0, c="X") + " & (" + box.format(k=1, c="Y") + ") & ("
+                             + box.format(k=2, c="Z") + ")].copy()\nreturn points",
         }
-        for what, frag in need.items():
-            if frag not in src:
-                raise Untranslatable(f"CopcReader.query: {what}: `{frag}` not found")
+        al.solve(need)
+        f = al.renamed()
         keep = None
         clips = {}
         for n in ast.walk(f):
-            if isinstance(n, ast.Assign) and _norm(n.targets[0]) == "x_keep":
-                keep = n.value
+            if isinstance(n, ast.Assign) and _norm(n.targets[0]) == "points.array":
+                keep = n.value.func.value.slice.left.left            # the x conjunct of the mask
             if isinstance(n, ast.Assign) and _norm(n.targets[0]) in ("MINS", "MAXS"):
                 clips[_norm(n.targets[0])] = n.value
         # MINS = np.clip(np.round((bounds.mins - offsets) / scales), <lo>, <hi>).astype(np.<int type>)
@@ -255,16 +766,28 @@ def gen_copc(repo):
                      "http_thread_executor_strategy(self.source,byte_queries,compressed_bytes,self.http_num_threads)"]:
             if frag not in g:
                 raise Untranslatable(f"_fetch_all_chunks: `{frag}` not found")
-        q = _norm(find_func(mod, "http_queue_strategy"))
-        for frag in ["forqueryinbyte_queries:query_queue.put(query)", "results.append(result)",
-                     "citer=ChunkIter(out_compressed_bytes)forgroup_bytes,_inresults:cc=citer.next(len(group_bytes))cc[:]=group_bytes"]:
-            if frag not in q:
-                raise Untranslatable(f"http_queue_strategy: `{frag}` not found")
-        if q.count("results.sort(") + q.count("sorted(") > 1:
+        qa = Alpha(canon(find_func(mod, "http_queue_strategy")), "query_queue result_queue query results result x citer group_bytes")
+        q = _norm(qa.f)
+        need = {
+            "every range queued": "for query in byte_queries:\n    query_queue.put(query)",
+            "results collected": "result = result_queue.get()\nif isinstance(result, Exception):\n    raise result\nresults.append(result)",
+            "ranges copied in the order of results": "citer = ChunkIter(out_compressed_bytes)\nfor group_bytes, _ in results:\n"
+                                                     "    citer.next(len(group_bytes))[:] = group_bytes",
+        }
+        if q.count(".sort(") + q.count("sorted(") > 1:
             raise Untranslatable("http_queue_strategy: more than one sort")
-        by_offset = "results.sort(key=lambdax:x[1])" in q and "self.result_queue.put((data,offset))" in _norm(find_class(mod, "HttpFetcherThread"))
-        if not by_offset and ("sort" in q):
-            raise Untranslatable("http_queue_strategy: results sorted by something else than the offset")
+        by_offset = True
+        try:
+            # sorted by the second component of what the workers put: (bytes, offset of the range)
+            qa.solve(dict(need, **{"sorted by offset": "results.append(result)\nresults.sort(key=lambda x: x[1])\nciter = ChunkIter("}))
+            Alpha(canon(find_func(find_class(mod, "HttpFetcherThread"), "run")), "http_reader offset size").solve({
+                "result is (bytes, offset)": "offset, size = self.query_queue.get_nowait() except Empty: break try:\n"
+                                             "http_reader.seek(offset)\nself.result_queue.put((http_reader.read(size), offset))"})
+        except Untranslatable:
+            by_offset = False
+            if "sort" in q:
+                raise Untranslatable("http_queue_strategy: results sorted by something else than the offset")
+            qa.solve(need)
         e = _norm(find_func(mod, "http_thread_executor_strategy"))
         for frag in ["foroffset,sizeinbyte_queries:jobs.append(downloader_pool.submit(fetch_data_job,HttpRangeStream(source.url),offset,size,))",
                      "citer=ChunkIter(out_compressed_bytes)forfutureinjobs:group_bytes=future.result()cc=citer.next(len(group_bytes))cc[:]=group_bytes"]:
